@@ -94,14 +94,23 @@ func (a *kAggregate) Next(ctx context.Context) ([]model.StepVector, error) {
 	if err != nil {
 		return nil, err
 	}
+	var paramErr error
 	for i := range a.params {
 		a.params[i] = math.NaN()
 		if i < len(args) {
 			a.params[i] = args[i].Samples[0]
+			// Same rule as the Prometheus engine: a parameter that cannot be
+			// an int64 (NaN, overflow) fails the query, whatever the input.
+			if !convertibleToInt64(a.params[i]) && paramErr == nil {
+				paramErr = errors.Newf("Scalar value %v overflows int64", a.params[i])
+			}
 			a.paramOp.GetPool().PutStepVector(args[i])
 		}
 	}
 	a.paramOp.GetPool().PutVectors(args)
+	if paramErr != nil {
+		return nil, paramErr
+	}
 
 	if len(args) < len(in) {
 		return nil, errors.New("scalar argument not found")
@@ -114,11 +123,6 @@ func (a *kAggregate) Next(ctx context.Context) ([]model.StepVector, error) {
 
 	result := a.vectorPool.GetVectorBatch()
 	for i, vector := range in {
-		// Same rule as the Prometheus engine: a parameter that cannot be an
-		// int64 (NaN, overflow) fails the query.
-		if !convertibleToInt64(a.params[i]) {
-			return nil, errors.Newf("Scalar value %v overflows int64", a.params[i])
-		}
 		a.aggregate(vector.T, &result, int(int64(a.params[i])), vector.SampleIDs, vector.Samples)
 		a.next.GetPool().PutStepVector(vector)
 	}
